@@ -33,7 +33,8 @@ def program_sets(tier):
     from pv.props.c02 import BIND_CTL
 
     extra = frozenset({"try-except-noname", "try-except-else", "with-noas", "raise-base", "global-read", "shadowed-builtin"})
-    return [("gen", dict()), ("ctl", dict(size=C.SIZE[tier] + 1, only=BIND_CTL | extra, key=("c10ctl", tier)))]
+    return [("gen", dict()), ("ctl", dict(size=C.SIZE[tier] + 1, only=BIND_CTL | extra, key=("c10ctl", tier))),
+            ("sig", dict(size=1 if tier == "quick" else 2, sigs=("rich", "kwonly", "doc"), key=("c10sig", tier)))]
 
 
 def units(tier):
